@@ -1,5 +1,5 @@
 SPECIFICATION TSpec
-CONSTANTS BASE = 32768  Slack = 0  Unlimited = 2147483647  SlackMt = 16384
+CONSTANTS BASE = 32768  Slack = 0  Unlimited = 2147483647  SlackMt = 16384  SlackIndex = 16384
  Variant = {}
 POSTCONDITION TraceAccepted
 CHECK_DEADLOCK FALSE
